@@ -135,8 +135,20 @@ struct ActivityContext<'a> {
 
 fn match_place(single: &Arc<Single>, is_job_activity: bool, activity_ctx: &ActivityContext) -> Option<Place> {
     let job_id = get_job_id(single);
-    let job_tag =
-        get_job_tag(single, (activity_ctx.location, (activity_ctx.time.clone(), activity_ctx.route_start_time)));
+    // NOTE: several places of the job can share location and intersect in time, so when activity has a tag
+    // which is known by the job, use it to identify the place
+    let tagged_place_idx = activity_ctx.tag.and_then(|activity_tag| {
+        single
+            .dimens
+            .get_place_tags()
+            .and_then(|tags| tags.iter().find(|(_, tag)| tag == activity_tag))
+            .map(|(place_idx, _)| *place_idx)
+    });
+    let job_tag = if tagged_place_idx.is_some() {
+        activity_ctx.tag
+    } else {
+        get_job_tag(single, (activity_ctx.location, (activity_ctx.time.clone(), activity_ctx.route_start_time)))
+    };
 
     let is_same_ids = *activity_ctx.job_id == job_id;
     let is_same_tags = match (job_tag, activity_ctx.tag) {
@@ -151,12 +163,13 @@ fn match_place(single: &Arc<Single>, is_job_activity: bool, activity_ctx: &Activ
             .places
             .iter()
             .enumerate()
-            .find(|(_, place)| {
+            .find(|(place_idx, place)| {
+                let is_tagged_place = tagged_place_idx.is_none_or(|tagged_place_idx| tagged_place_idx == *place_idx);
                 let is_same_location = place.location.is_none_or(|l| l == activity_ctx.location);
                 let is_proper_time =
                     place.times.iter().any(|time| time.intersects(activity_ctx.route_start_time, &activity_ctx.time));
 
-                is_same_location && is_proper_time
+                is_tagged_place && is_same_location && is_proper_time
             })
             .map(|(idx, place)| {
                 // NOTE search for the latest occurrence assuming that times are sorted
